@@ -1,4 +1,5 @@
 import NbioVerif.Properties.C20
+import NbioVerif.Lemmas.SrcBridgeAlloc
 #print axioms Alloc.c20_invariant
 #print axioms Alloc.c20_malloc_len
 #print axioms Alloc.c20_append
@@ -8,3 +9,7 @@ import NbioVerif.Properties.C20
 #print axioms Alloc.c20_no_panic
 #print axioms Alloc.c20_accepts
 #print axioms Alloc.c20_aligned_foreign_cap_counterexample
+#print axioms Alloc.src_minAligned
+#print axioms Alloc.src_maxAligned
+#print axioms Alloc.src_nClasses
+#print axioms Alloc.src_classSize
